@@ -206,29 +206,29 @@ theorem regionsPart_lines (ds de ds' de' : List Char) (b b' : Bytes) (sel : Elem
     · exact ih
 end
 
-/-- C18, listing: the same piece list under two delimiter pairs that contain no line break (no element carrying
-    `unwrap-block`) is listed with the same line ranges, item by item -/
-theorem list_lines_respelled (d0 : Char) (dr : List Char) (e0 : Char) (er : List Char)
+/-- C18, listing, in its general form: whenever the tokens of the two renderings are the normalised pieces (the
+    conclusion of C08) and the tag bodies can be stripped of both delimiter pairs, the two listings have the same line
+    ranges, item by item (delimiters without line breaks, no element carrying `unwrap-block`) -/
+theorem list_lines_respelled_tn (d0 : Char) (dr : List Char) (e0 : Char) (er : List Char)
     (d0' : Char) (dr' : List Char) (e0' : Char) (er' : List Char)
     (hnl : ∀ c ∈ (d0 :: dr) ++ (e0 :: er), c ≠ '\n') (hnl' : ∀ c ∈ (d0' :: dr') ++ (e0' :: er'), c ≠ '\n')
     (ps : List Piece)
-    (hfree : ∀ p ∈ ps, p.fits d0 e0 (d0 :: dr) (e0 :: er) ∧ p.fits d0' e0' (d0' :: dr') (e0' :: er'))
+    (hstrip : ∀ p ∈ ps, p.strip (d0 :: dr) (e0 :: er) ∧ p.strip (d0' :: dr') (e0' :: er'))
+    (htn : (tokenize (renderAll (d0 :: dr) (e0 :: er) ps) (d0 :: dr) (e0 :: er)).map (fun t => (t.kind, t.value))
+      = tnorm (d0 :: dr) (e0 :: er) [] ps [])
+    (htn' : (tokenize (renderAll (d0' :: dr') (e0' :: er') ps) (d0' :: dr') (e0' :: er')).map (fun t => (t.kind, t.value))
+      = tnorm (d0' :: dr') (e0' :: er') [] ps [])
     (cfg : Cfg)
     (hnu : NoUnwrapAttr (parseSource (renderAll (d0 :: dr) (e0 :: er) ps) (d0 :: dr) (e0 :: er))) :
     (listMarkers (renderAll (d0 :: dr) (e0 :: er) ps) (d0 :: dr) (e0 :: er) cfg).map
         (fun x => lineRangeOf (bytesOf (renderAll (d0 :: dr) (e0 :: er) ps)) (x.1.start, x.1.stop)) =
     (listMarkers (renderAll (d0' :: dr') (e0' :: er') ps) (d0' :: dr') (e0' :: er') cfg).map
         (fun x => lineRangeOf (bytesOf (renderAll (d0' :: dr') (e0' :: er') ps)) (x.1.start, x.1.stop)) := by
-  have hok : ∀ p ∈ ps, p.ok d0 e0 := fun p hp => Piece.ok_of_fits _ _ _ _ p (hfree p hp).1
-  have hok' : ∀ p ∈ ps, p.ok d0' e0' := fun p hp => Piece.ok_of_fits _ _ _ _ p (hfree p hp).2
-  generalize hsrc : renderAll (d0 :: dr) (e0 :: er) ps = src at hnu
-  generalize hsrc' : renderAll (d0' :: dr') (e0' :: er') ps = src'
+  have hT := tokXs_of_tnorm (d0 :: dr) (e0 :: er) (d0' :: dr') (e0' :: er') ps [] _ _ hstrip htn htn'
+  generalize hsrc : renderAll (d0 :: dr) (e0 :: er) ps = src at hnu hT
+  generalize hsrc' : renderAll (d0' :: dr') (e0' :: er') ps = src' at hT
   obtain ⟨tk, _⟩ := tokenize_ok src (d0 :: dr) (e0 :: er) (by simp)
   obtain ⟨tk', _⟩ := tokenize_ok src' (d0' :: dr') (e0' :: er') (by simp)
-  have hT := tokXs_of_tnorm (d0 :: dr) (e0 :: er) (d0' :: dr') (e0' :: er') ps [] _ _
-    (fun p hp => ⟨Piece.strip_of_fits _ _ _ _ p (hfree p hp).1, Piece.strip_of_fits _ _ _ _ p (hfree p hp).2⟩)
-    (tokens_tnorm d0 dr e0 er ps hok) (tokens_tnorm d0' dr' e0' er' ps hok')
-  rw [hsrc, hsrc'] at hT
   -- the line counts agree token by token
   have hpw := chain_sameLines (d0 :: dr) (e0 :: er) (d0' :: dr') (e0' :: er') hnl hnl'
     (fun w c h => hnl c (by rw [h]; simp)) (fun w c h => hnl' c (by rw [h]; simp)) (by simp) (by simp)
@@ -267,6 +267,25 @@ theorem list_lines_respelled (d0 : Char) (dr : List Char) (e0 : Char) (er : List
   exact regions_lines _ _ _ _ _ _ (conditionHolds cfg) _ _ hG
     (fun e he => ⟨hnu e he, elements_ordered _ 0 _ hspan e he⟩)
     (fun e he => ⟨hnu' e he, elements_ordered _ 0 _ hspan' e he⟩)
+
+/-- C18, listing: the same piece list under two delimiter pairs that contain no line break (no element carrying
+    `unwrap-block`) is listed with the same line ranges, item by item -/
+theorem list_lines_respelled (d0 : Char) (dr : List Char) (e0 : Char) (er : List Char)
+    (d0' : Char) (dr' : List Char) (e0' : Char) (er' : List Char)
+    (hnl : ∀ c ∈ (d0 :: dr) ++ (e0 :: er), c ≠ '\n') (hnl' : ∀ c ∈ (d0' :: dr') ++ (e0' :: er'), c ≠ '\n')
+    (ps : List Piece)
+    (hfree : ∀ p ∈ ps, p.fits d0 e0 (d0 :: dr) (e0 :: er) ∧ p.fits d0' e0' (d0' :: dr') (e0' :: er'))
+    (cfg : Cfg)
+    (hnu : NoUnwrapAttr (parseSource (renderAll (d0 :: dr) (e0 :: er) ps) (d0 :: dr) (e0 :: er))) :
+    (listMarkers (renderAll (d0 :: dr) (e0 :: er) ps) (d0 :: dr) (e0 :: er) cfg).map
+        (fun x => lineRangeOf (bytesOf (renderAll (d0 :: dr) (e0 :: er) ps)) (x.1.start, x.1.stop)) =
+    (listMarkers (renderAll (d0' :: dr') (e0' :: er') ps) (d0' :: dr') (e0' :: er') cfg).map
+        (fun x => lineRangeOf (bytesOf (renderAll (d0' :: dr') (e0' :: er') ps)) (x.1.start, x.1.stop)) :=
+  list_lines_respelled_tn d0 dr e0 er d0' dr' e0' er' hnl hnl' ps
+    (fun p hp => ⟨Piece.strip_of_fits _ _ _ _ p (hfree p hp).1, Piece.strip_of_fits _ _ _ _ p (hfree p hp).2⟩)
+    (tokens_tnorm d0 dr e0 er ps (fun p hp => Piece.ok_of_fits _ _ _ _ p (hfree p hp).1))
+    (tokens_tnorm d0' dr' e0' er' ps (fun p hp => Piece.ok_of_fits _ _ _ _ p (hfree p hp).2))
+    cfg hnu
 
 /-! Non-vacuity: the document of `compose_default`, once with `<` `>` and once with `[%` `%]`. -/
 def frB (cs : List Char) : Piece → Bool
